@@ -20,6 +20,7 @@ CONSTANTS
   BugContES = FALSE
   BugPadCredit = FALSE
   EncodeAtEnqueue = FALSE
+  BugZeroCostHeld = FALSE
 INVARIANTS WithinGrant WithinMaxFrame NoEligibleQueued LedgerAgrees PrefixFidelity HpackInOrder
 CONSTRAINT HWM
 POSTCONDITION Accepted
